@@ -296,6 +296,9 @@ pub proof fn lemma_c13_lookup(o: Seq<Factor>, wf: Seq<Factor>, cs: Seq<Energy>, 
     requires cgn_added(o, wf, cs), forall|j: int| 0 <= j < o.len() ==> (#[trigger] o[j]).source != Source::COGEN,
     ensures s != Source::COGEN ==> fp(wf, c, s, d, st) == fp(o, c, s, d, st),
             s == Source::COGEN && c == Carrier::ELECTRICIDAD && st == Step::A && (d == Dest::A_NEPB || d == Dest::A_RED) ==> fp(wf, c, s, d, st) == c13_g(o, cs),
+            s != Source::COGEN || c != Carrier::ELECTRICIDAD ==> find_spec(wf, c, s, d, st) == find_spec(o, c, s, d, st),
+            has_cgn_prod(cs) && s == Source::COGEN && c == Carrier::ELECTRICIDAD && st == Step::B && (d == Dest::A_NEPB || d == Dest::A_RED)
+                ==> fp(wf, c, s, d, st) == fp(o, Carrier::ELECTRICIDAD, Source::RED, Dest::SUMINISTRO, Step::A),
 {
     if s == Source::COGEN {
         assert forall|j: int| 0 <= j < o.len() implies !fkey(#[trigger] o[j], c, s, d, st) by {}
